@@ -233,7 +233,7 @@ func replaceExpr(expr Expr, from []string, to []Expr, clone bool) Expr {
 					if newExprs != nil {
 						prev = newExprs[:i]
 					}
-					return aFolder.Nary(e.Tok, append(slc.Clone(prev), r))
+					return foldAndOr(e.Tok, append(slc.Clone(prev), r))
 				}
 				if r != e2 || clone {
 					if newExprs == nil {
@@ -251,7 +251,7 @@ func replaceExpr(expr Expr, from []string, to []Expr, clone bool) Expr {
 				}
 				newExprs = e.Exprs
 			}
-			return aFolder.Nary(e.Tok, newExprs)
+			return foldAndOr(e.Tok, newExprs)
 		}
 		exprs := replaceExprs(e.Exprs, from, to, clone)
 		if exprs == nil && !clone {
@@ -293,6 +293,24 @@ func replaceExpr(expr Expr, from []string, to []Expr, clone bool) Expr {
 	default:
 		panic(assert.ShouldNotReachHere())
 	}
+}
+
+// foldAndOr folds a rebuilt and / or, unless it has several constant operands.
+// The folder would combine those with the operator at fold time
+// (and raise for non-boolean constants) although evaluation may short circuit
+// before reaching them. At parse time such lists only arise by flattening
+// nested and / or, which does not combine the nested constants either.
+func foldAndOr(token tok.Token, exprs []Expr) Expr {
+	n := 0
+	for _, e := range exprs {
+		if _, ok := e.(*Constant); ok {
+			n++
+		}
+	}
+	if n > 1 {
+		return &Nary{Tok: token, Exprs: exprs}
+	}
+	return aFolder.Nary(token, exprs)
 }
 
 // replaceExprs returns nil if nothing was replaced,
